@@ -19,6 +19,22 @@ def gen_control_case(rng, tier, fresh):
             g = common.rand_mono(rng, others, 1)
             lines.append(f"{v}, ({rng.choice(['s', '!s'])} | {v}) & {g}" if rng.random() < 0.6 else f"{v}, ({rng.choice(['s', '!s'])} & {g}) | ({v} & {g})")
         bnet = "\n".join(lines)
+    elif r < 0.28:
+        # non-monotone influence: a variable forces a latch under *both* of its values (directly under one, through a
+        # follower under the other), so one variable set has several working valuations
+        f = rng.choice(["w", "!w", "x"])
+        a, b = rng.sample(["x", "!x", "y", "!y", "w", "!w"], 2)
+        if rng.random() < 0.7:
+            # complementary triggers: `a` fires under one value of x, `b` under the other (through w, possibly through y)
+            a = rng.choice(["x", "!x"])
+            f = rng.choice(["w", "!w"])
+            hi = a == "!x"                       # b has to be true when x = w = 1 (hi) resp. x = w = 0
+            b = rng.choice(["w" if hi else "!w", ("y" if f == "w" else "!y") if hi else ("!y" if f == "w" else "y")])
+        lines = ["x, w", "w, x" if rng.random() < 0.7 else "w, x | w", f"y, {f}",
+                 f"m, m | {a} | {b}" if rng.random() < 0.6 else f"m, (m & z) | {a} | {b}", "z, z | m"]
+        bnet = "\n".join(lines[:rng.randint(4, 5)])
+        if "z" in bnet and not any(l.startswith("z,") for l in bnet.split("\n")):
+            bnet += "\nz, z | m"
     elif r < 0.45:
         bnet = common.g_lattice(rng, rng.randint(3, nmax))
     else:
@@ -29,13 +45,19 @@ def gen_control_case(rng, tier, fresh):
         prefix = [rng.choice([["bfs", 0, rng.choice([0, 1]), None], ["one", 0], ["dfs", 0, 1, None], ["bfs", 0, None, rng.randint(2, 5)],
                               ["min", 0, rng.randint(1, 4), False]]),
                   ["skiprem"] if rng.random() < 0.7 else ["skipmin", rng.randrange(64)]]
-    return {"bnet": bnet, "ops": prefix, "max_motifs": rng.choice([100000] * 5 + [2, 3]),
+    nonmono = bnet.startswith("x, w") and "\nm, " in bnet
+    case = {"bnet": bnet, "ops": prefix, "max_motifs": rng.choice([100000] * 5 + [2, 3]),
             "target": [[rng.randrange(64), rng.randint(0, 1)] for _ in range(rng.randint(1, 3))],
             "target_mode": rng.choice(["trap", "trap", "space"]), "target_pick": rng.randrange(1 << 20),
             "strategy": rng.choice(["internal", "all"]), "bound": rng.choice([None, None, 0, 1, 2, 3]),
             "forbidden": [rng.randrange(64) for _ in range(rng.choice([0, 0, 1, 2]))],
             "skip_ff": rng.random() < 0.25, "successful_only": rng.random() < 0.5,
             "pre_query": rng.random() < 0.3}
+    if nonmono and rng.random() < 0.8:
+        # a trap space of the network as target (with m = 1 the uncontrolled network gets there anyway: a strict target makes
+        # {m: 1} one step of a longer succession), any variable may be overridden
+        case.update(target_mode="trap", strategy="all", bound=rng.choice([None, None, 1, 2]), max_motifs=100000)
+    return case
 
 
 def pre_query(case, sd, ni, target):
